@@ -17,6 +17,7 @@ R2  validate-before-mutate in merge: none of the validation `raise`s of merge
 R3  metadata.json is written last: every other file-system effect precedes
     it and none follows it.
 R4  inputs are relocated only by os.rename (zero-expected + positive control).
+R6  the trajectory cache refuses an eviction before removing anything.
 """
 
 from __future__ import annotations
@@ -340,6 +341,38 @@ def rule_merge(ctx):
     n_rules = sum(1 for v in validation.values() if v.startswith('raise'))
     chk = m.func('TrajectoryStore._check_merge_arguments')
     n_rules += len(eff.explicit_raises(chk))
+    # refusals hidden in callees: an explicit raise (other than in the argument check) in the closure of a call that a
+    # file-system effect can precede is a refusal after the fact
+    n_late = 0
+    for n in g.nodes:
+        if n.stmt is None or n.kind in ('finally', 'dispatch', 'join', 'except'):
+            continue
+        prior = [f for f in fs_nodes if f != n.id and g.reaches(f, n.id, edge_ok=lambda a, b, lab: lab != 'e')]
+        if not prior:
+            continue
+        heads_ = [n.stmt] if n.kind == 'stmt' else [getattr(n.stmt, 'test', None), getattr(n.stmt, 'iter', None)]
+        for e in heads_:
+            if e is None:
+                continue
+            for c in calls_in(e):
+                callee = resolve_call(prog, merge, c)
+                if callee is None or callee.qualname.endswith('_check_merge_arguments'):
+                    continue
+                for h, r in eff.explicit_raises(callee):
+                    if not h.file.endswith(STORE) or r.exc is None:
+                        continue
+                    exc = norm(r.exc)
+                    if not exc.startswith(('ValueError', 'TypeError', 'RuntimeError', 'KeyError')):
+                        continue
+                    # only refusals that judge the *inputs* of the merge (reachable without any prior effect of the callee
+                    # itself failing): report each once
+                    n_late += 1
+                    ctx.ob('C10-R2', merge, f'{callee.name}(…) can refuse with `{exc[:60]}` (in {h.name}, line {r.lineno})', False,
+                           (f'this refusal can only be reached after {fs_nodes[prior[0]][0]} (line {g.nodes[prior[0]].line}) has '
+                            'already changed the file system: the merge is refused but the output directory and the moved input '
+                            'files stay behind, and the corrected retry fails'), line=r.lineno)
+    ctx.ob('C10-R2', merge, f'{n_late} refusal(s) reachable only after a file-system effect', n_late == 0,
+           'every explicit refusal of the merge is decided before the first effect' if n_late == 0 else 'see above', nontrivial=False)
     ctx.floor('C10-R2', n_rules, 8, 'merge validation rules')
     ctx.floor('C10-R2/fs', len(fs_nodes), 4, 'file-system effect sites in merge')
 
@@ -461,8 +494,42 @@ def rule_caches(ctx):
                ', '.join(norm(x.value) for x in r) if ok else 'hash no longer reflects the field definitions', nontrivial=False)
 
 
+def rule_eviction(ctx):
+    """R6: the cache's refusal to evict (an in-memory store has nowhere to reload an evicted trajectory from) is
+    decided before anything is removed: in TrajectoryCache.popitem no `raise` is reachable from a statement that has
+    already taken an item out of the cache."""
+    m = ctx.prog.module(STORE)
+    fi = m.func('TrajectoryCache.popitem')
+    g = CFG(fi.node)
+    removers = []
+    raises = []
+    for n in g.nodes:
+        if n.stmt is None or n.kind != 'stmt':
+            continue
+        if isinstance(n.stmt, ast.Raise):
+            raises.append(n)
+            continue
+        for c in calls_in(n.stmt):
+            cn = call_name(c)
+            if cn.split('.')[-1] in ('popitem', 'pop', 'clear', '__delitem__') or cn.startswith('super().'):
+                removers.append((n, cn))
+        if isinstance(n.stmt, ast.Delete):
+            removers.append((n, 'del'))
+    ctx.floor('C10-R6', len(raises), 1, 'eviction refusals in TrajectoryCache.popitem')
+    ctx.floor('C10-R6/remove', len(removers), 1, 'removals in TrajectoryCache.popitem')
+    for r in raises:
+        late = [(n, cn) for n, cn in removers if g.reaches(n.id, r.id, edge_ok=lambda a, b, lab: lab != 'e')]
+        ok = not late
+        ctx.ob('C10-R6', fi, f'`{norm(r.stmt)[:60]}` is decided before any removal', ok,
+               'nothing has been taken out of the cache when the eviction is refused' if ok else
+               (f'`{late[0][1]}(…)` (line {late[0][0].line}) has already removed the least recently used trajectory when the '
+                'eviction is refused: the add that overflowed an in-memory store is rejected, yet an earlier trajectory is gone '
+                'and cannot be reloaded'), line=r.line)
+
+
 def run(ctx):
     rule_caches(ctx)
+    rule_eviction(ctx)
     rule_add(ctx)
     rule_merge(ctx)
     ctx.assumptions += [
